@@ -46,7 +46,7 @@ pub fn run(wseed: u64, rt: &tokio::runtime::Runtime) {
         // part of a window is used, then the limiter is idle for two and a half periods
         let mut first = svc.clone();
         for k in 0..prefill {
-            let mut f = Box::pin(first.call(Req { id: n + k, pends: 0, fail: false, slow_drop: 0 }));
+            let mut f = Box::pin(first.call(Req { id: n + k, pends: 0, fail: false, slow_drop: 0, key: 0 }));
             let _ = drive(f.as_mut(), 1000);
         }
         rt.block_on(tokio::time::advance(Duration::from_millis(125)));
@@ -66,7 +66,7 @@ pub fn run(wseed: u64, rt: &tokio::runtime::Runtime) {
             let _g = handle.enter();
             for i in 0..k {
                 let id = b + i;
-                let mut f = Box::pin(svc.call(Req { id, pends: 0, fail: false, slow_drop: 0 }));
+                let mut f = Box::pin(svc.call(Req { id, pends: 0, fail: false, slow_drop: 0, key: 0 }));
                 match drive(f.as_mut(), 10_000) {
                     None => violation("C15.decided_within_timeout [os_threads]", format!("request {} undecided with a zero timeout", id)),
                     Some(Ok(_)) => {
